@@ -71,7 +71,7 @@ private theorem run1d_eq (v : View) (h1 : v.is1d = true) : run1d v (v.w * v.h) =
   rw [Int.add_mul, Int.mul_comm (v.w : Int) ((i / v.w : Nat) : Int), Int.mul_assoc]
 
 /-- whichever way a view is traversed by copy / equal, the pixels come in row-major order -/
-theorem implSide_eq (v : View) : implSide v = specAddrs v := by
+theorem C04_traversal_row_major (v : View) : implSide v = specAddrs v := by
   unfold implSide
   split
   next h1 => exact run1d_eq v h1
@@ -105,7 +105,7 @@ private theorem rows_eq {α : Type} (w h : Nat) (f : Nat → Nat → α) :
     the sequence of (source cell, destination cell) assignments IS the row-major loop's sequence -/
 theorem C04_copy_order (s d : View) (hw : s.w = d.w) (hh : s.h = d.h) : implCopyPairs s d = specCopyPairs s d := by
   unfold implCopyPairs specCopyPairs
-  rw [implSide_eq, implSide_eq]
+  rw [C04_traversal_row_major, C04_traversal_row_major]
   unfold specAddrs
   rw [hw, hh, List.zip_map']
 
@@ -113,26 +113,26 @@ theorem C04_copy_order (s d : View) (hw : s.w = d.w) (hh : s.h = d.h) : implCopy
 theorem C04_copy_refines (m : Mem) (s d : View) (hw : s.w = d.w) (hh : s.h = d.h) : implCopy m s d = specCopy m s d := by
   unfold implCopy specCopy; rw [C04_copy_order s d hw hh]
 
-example : implCopy (fun a => a.toNat) ⟨0, 1, 5, 3, 2⟩ ⟨100, 2, 1, 3, 2⟩ 101 = 5 ∧ implCopy (fun a => a.toNat) ⟨0, 1, 5, 3, 2⟩ ⟨100, 2, 1, 3, 2⟩ 103 = 6 := by decide
+example : (implCopy ⟨[(0, 10), (1, 11), (2, 12), (5, 15), (6, 16), (7, 17)]⟩ ⟨0, 1, 5, 3, 2⟩ ⟨100, 2, 1, 3, 2⟩).get 101 = 15 ∧
+    (implCopy ⟨[(0, 10), (1, 11), (2, 12), (5, 15), (6, 16), (7, 17)]⟩ ⟨0, 1, 5, 3, 2⟩ ⟨100, 2, 1, 3, 2⟩).get 103 = 16 := by decide
 
 private theorem foldl_set_frame {β : Type} (l : List β) (addr : β → Int) (val : Mem → β → Nat) (m : Mem) (a : Int)
-    (ha : ∀ p ∈ l, addr p ≠ a) : (l.foldl (fun m p => m.set (addr p) (val m p)) m) a = m a := by
+    (ha : ∀ p ∈ l, addr p ≠ a) : (l.foldl (fun m p => m.set (addr p) (val m p)) m).get a = m.get a := by
   induction l generalizing m with
   | nil => rfl
   | cons p l ih =>
     simp only [List.foldl_cons]
     rw [ih _ (fun q hq => ha q (List.mem_cons_of_mem _ hq))]
-    unfold Mem.set
     have := ha p (List.mem_cons_self)
-    simp [Ne.symm this]
+    rw [Mem.get_set]; simp [Ne.symm this]
 
 /-- frame: a cell that is not a pixel of the destination view keeps its value (row padding, pixels around a sub-view,
     the other views' pixels) -/
 theorem C04_copy_frame (m : Mem) (s d : View) (hw : s.w = d.w) (hh : s.h = d.h) (a : Int) (ha : a ∉ d.cells) :
-    implCopy m s d a = m a := by
+    (implCopy m s d).get a = m.get a := by
   rw [C04_copy_refines m s d hw hh]
   unfold specCopy applyPairs
-  apply foldl_set_frame (specCopyPairs s d) (fun p => p.2) (fun m p => m p.1)
+  apply foldl_set_frame (specCopyPairs s d) (fun p => p.2) (fun m p => m.get p.1)
   intro p hp e
   apply ha
   unfold specCopyPairs at hp
@@ -152,13 +152,13 @@ theorem C04_fill_order (d : View) : implFillAddrs d = specAddrs d := by
 theorem C04_fill_refines (m : Mem) (d : View) (v : Nat) : implFill m d v = specFill m d v := by
   unfold implFill specFill; rw [C04_fill_order]
 
-theorem C04_fill_frame (m : Mem) (d : View) (v : Nat) (a : Int) (ha : a ∉ d.cells) : implFill m d v a = m a := by
+theorem C04_fill_frame (m : Mem) (d : View) (v : Nat) (a : Int) (ha : a ∉ d.cells) : (implFill m d v).get a = m.get a := by
   rw [C04_fill_refines]
   unfold specFill
   exact foldl_set_frame (specAddrs d) (fun p => p) (fun _ _ => v) m a (fun p hp e => ha (e ▸ hp))
 
 /-- every pixel of the view holds the fill value afterwards (views whose pixels are distinct cells) -/
-theorem C04_fill_post (m : Mem) (d : View) (v : Nat) (a : Int) (ha : a ∈ d.cells) : implFill m d v a = v := by
+theorem C04_fill_post (m : Mem) (d : View) (v : Nat) (a : Int) (ha : a ∈ d.cells) : (implFill m d v).get a = v := by
   rw [C04_fill_refines]
   unfold specFill View.cells at *
   generalize specAddrs d = l at ha
@@ -171,7 +171,7 @@ theorem C04_fill_post (m : Mem) (d : View) (v : Nat) (a : Int) (ha : a ∈ d.cel
     · have : a = p := by cases ha with | head => rfl | tail _ h => exact absurd h hl
       subst this
       rw [foldl_set_frame l (fun p => p) (fun _ _ => v) _ a (fun q hq e => hl (e ▸ hq))]
-      simp [Mem.set]
+      rw [Mem.get_set]; simp
 
 private theorem zipIdx_range_map {α : Type} (n : Nat) (g : Nat → α) :
     ((List.range n).map g).zipIdx = (List.range n).map (fun k => (g k, k)) := by
@@ -193,13 +193,13 @@ theorem C04_generate_order (m : Mem) (d : View) (f : Nat → Nat) : implGenerate
 theorem C04_equal_refines (m : Mem) (a b : View) (eq : Nat → Nat → Bool) (hw : a.w = b.w) (hh : a.h = b.h) :
     implEqual m a b eq = specEqual m a b eq := by
   unfold implEqual specEqual specCopyPairs
-  rw [implSide_eq, implSide_eq]
+  rw [C04_traversal_row_major, C04_traversal_row_major]
   unfold specAddrs
   rw [hw, hh, List.zip_map']
 
 /-- equal_pixels returns true exactly when all corresponding pixels compare equal -/
 theorem C04_equal_iff (m : Mem) (a b : View) (eq : Nat → Nat → Bool) (hw : a.w = b.w) (hh : a.h = b.h) :
-    implEqual m a b eq = true ↔ ∀ x y, x < b.w → y < b.h → eq (m (a.addr x y)) (m (b.addr x y)) = true := by
+    implEqual m a b eq = true ↔ ∀ x y, x < b.w → y < b.h → eq (m.get (a.addr x y)) (m.get (b.addr x y)) = true := by
   rw [C04_equal_refines m a b eq hw hh]
   unfold specEqual specCopyPairs
   simp only [List.all_map, List.all_eq_true, List.mem_range, Function.comp]
@@ -238,10 +238,10 @@ theorem C04_transform_refines (m : Mem) (s d : View) (f : Nat → Nat) (hw : s.w
   unfold implTransform specTransform; rw [C04_transform_order s d hw]
 
 theorem C04_transform_frame (m : Mem) (s d : View) (f : Nat → Nat) (hw : s.w = d.w) (a : Int) (ha : a ∉ d.cells) :
-    implTransform m s d f a = m a := by
+    (implTransform m s d f).get a = m.get a := by
   rw [C04_transform_refines m s d f hw]
   unfold specTransform
-  apply foldl_set_frame (specCopyPairs s d) (fun p => p.2) (fun m p => f (m p.1))
+  apply foldl_set_frame (specCopyPairs s d) (fun p => p.2) (fun m p => f (m.get p.1))
   intro p hp e
   apply ha
   unfold specCopyPairs at hp
